@@ -2,8 +2,9 @@
    ONLY statements: each theorem is closed by `exact` of a lemma proved elsewhere and followed by Print Assumptions. *)
 From Coq Require Import ZArith NArith List Bool Lia Permutation FMapPositive.
 Import ListNotations.
-Require Import Base Strings Builtins Interp Machine Spec Refine2 RunG ImpSearch ModFS ImportMain ImportProofs ImpLoad.
+Require Import Base Strings Builtins Interp Machine Spec Refine2 RunG ImpSearch ModFS ImportMain Lex ImportProofs ModFSProofs ImpLoad.
 Open Scope Z_scope.
+Import ModFS.      (* index_of, strip_dot, ... below are the disk functions *)
 (* INSIDE THE MAIN MODEL (the evaluator's own ㅂ): the literal route asks the world to search, and that search is ImpSearch.search on the tree the disk denotes - so the six search theorems below speak about the evaluator *)
 Theorem find_is_search w sp lits :
   wstep w (WFind sp lits) =
@@ -13,6 +14,13 @@ Theorem find_is_search w sp lits :
       | Ambiguous => inr (mkerr c_import sp) end).
 Proof. exact (ImportMain.find_is_search w sp lits). Qed.
 Print Assumptions find_is_search.
+
+(* the tree the evaluator searches is built from the disk (ModFS.tree_of_disk): the file found is a file OF THE DISK, and every component of its name, normalised as module._matches_literal normalises a directory entry, reads as the literal requested at that depth *)
+Theorem found_file_carries_the_literals disk lits p id :
+  search lits (tree_of_disk disk) = Found p id ->
+  exists nm bytes, nth_error disk (N.to_nat id) = Some (nm, bytes) /\ map (fun c => name_lit (norm_name c)) (comps nm) = map Some lits.
+Proof. exact (ModFSProofs.found_file_carries_the_literals disk lits p id). Qed.
+Print Assumptions found_file_carries_the_literals.
 
 (* the whole built-in on literal words (not the built-in marker 5): nothing is evaluated, the tree is searched, the file found goes to the same loader as a path string *)
 Theorem import_by_literals rec sp argv ip h w h1 l0 lits p id nm bytes :
